@@ -6,6 +6,7 @@ pub mod c23;
 pub mod c25;
 pub mod c26;
 pub mod c30;
+pub mod c31;
 pub mod srvchk;
 pub mod c10;
 pub mod c11;
@@ -57,6 +58,7 @@ pub fn lookup(id: &str) -> Option<Entry> {
         "C25" => e!(c25),
         "C26" | "C27" => e!(c26),
         "C30" => e!(c30),
+        "C31" => e!(c31),
         _ => None,
     }
 }
